@@ -8,6 +8,9 @@
 
 #include <stdio.h>
 #include <sys/types.h>
+#if !defined(AWS_OS_WINDOWS)
+#    include <sys/wait.h>
+#endif
 
 enum { MAX_BUFFER_SIZE = 2048 };
 
@@ -74,7 +77,9 @@ int aws_run_command(
 #    if defined(AWS_OS_WINDOWS)
         result->ret_code = _pclose(output_stream);
 #    else
-        result->ret_code = pclose(output_stream);
+        int wait_status = pclose(output_stream);
+        /* pclose() reports the wait status; the command's return code is the exit status inside it */
+        result->ret_code = (wait_status != -1 && WIFEXITED(wait_status)) ? WEXITSTATUS(wait_status) : wait_status;
 #    endif
     }
 
